@@ -108,8 +108,12 @@ if MODEL:
             t = z3.simplify(z3.substitute(t, *pairs))
         return t
 
+    HOW = {"solver": 0}
+
     def equal_terms(a, b):
-        """True / False(model) / None(unknown) : a == b under the current path condition"""
+        """True / False(model) / None(unknown) : a == b under the current path condition.
+        Most equalities are settled by normal forms (hash-consed terms after substitution of the learnt
+        index equalities and recurrences); the rest goes to z3 (HOW['solver'] counts those)."""
         if ca._same(a, b):
             return True, None
         ta, tb = ca.tz(a), ca.tz(b)
@@ -133,6 +137,7 @@ if MODEL:
         if z3.is_rational_value(d) and d.numerator_as_long() == 0:
             return True, None
         c = ctx()
+        HOW["solver"] += 1
         c.solver.push()
         try:
             c.solver.set("timeout", _EQ_TIMEOUT)
@@ -224,6 +229,7 @@ if MODEL:
             found = None
             unknown = False
             t0 = time.time()
+            s0 = HOW["solver"]
             for i in cand:
                 ok, _ = equal_terms(emitted[i][1], r)
                 if ok:
@@ -234,7 +240,7 @@ if MODEL:
             oname = "%s:%s" % (name, _tagstr(tag))
             if found is not None:
                 used[found] = True
-                c.obligations.append(_ob(oname, "discharged", time.time() - t0, "row #%s of the emitted NLP" % (emitted[found][2],)))
+                c.obligations.append(_ob(oname, "discharged", time.time() - t0, "row #%s of the emitted NLP" % (emitted[found][2],), solver_calls=HOW["solver"] - s0))
             elif unknown:
                 c.obligations.append(_ob(oname, "unknown", time.time() - t0, "no emitted row proved equal; some comparisons undecided"))
             else:
@@ -254,9 +260,12 @@ if MODEL:
                 c.obligations.append(_ob(oname, "discharged", 0.0, "%d emitted atomic rows all matched" % len(emitted)))
         return missing, extra
 
-    def _ob(name, status, t, detail):
+    def _ob(name, status, t, detail, solver_calls=None):
         from vc.core import Obligation
-        return Obligation(name, status, time_s=t, detail=detail, path=list(ctx().trace))
+        ob = Obligation(name, status, time_s=t, detail=detail, path=list(ctx().trace))
+        if solver_calls is not None:
+            ob.backend = "z3" if solver_calls else "normal-form"
+        return ob
 
     def _tagstr(tag):
         return "/".join(str(t) for t in tag)
@@ -271,6 +280,7 @@ if MODEL:
             return False
         worst = True
         info = None
+        s0 = HOW["solver"]
         for i, (x, y) in enumerate(zip(a.e, b.e)):
             ok, model = equal_terms(x, y)
             if ok is False:
@@ -281,7 +291,7 @@ if MODEL:
                 worst = None
                 info = "entry %d undecided" % i
         st = {True: "discharged", False: "refuted", None: "unknown"}[worst]
-        c.obligations.append(_ob(name, st, time.time() - t0, info or detail))
+        c.obligations.append(_ob(name, st, time.time() - t0, info or detail, solver_calls=HOW["solver"] - s0))
         return worst is True
 
 else:
